@@ -105,8 +105,10 @@ func (eng *RedisEmu) RequestTermination() {
 		eng.disp = nil
 		processAllClients(func(id int64, cs *clientState) {
 			if cs.disp == disp {
-				cs.unblock("ERR server closed the connection", true)
+				// mark the connection first: a command that is about to block sees the mark, one
+				// that blocks already gets the unblock
 				cs.client.RequestClose()
+				cs.unblock("ERR server closed the connection", true)
 			}
 		})
 	}
